@@ -7,7 +7,8 @@ package stdlib_contracts
 
 //@ func CopyBytes   trusted
 //@   modifies nothing
-//@   ensures isNil(b) ==> isNil(result)
+// (two empty slices have the same content)
+//@   ensures isNil(b) ==> isNil(result) && content(result) == content(b)
 //@   ensures !isNil(b) ==> len(result) == len(b) && fresh(result) && content(result) == content(b)
 
 // parsing a Lemo address string is a function of the string alone; the empty string is not an address
